@@ -109,5 +109,13 @@ check("C10", "exploration",
       "without an exception_specification) are compared with a reference model of the documented semantics.",
       "Trusted: the reference model (C++ class hierarchy of the thrown kinds, first-matching-clause, finally-exactly-once). Catch guards and throwing finally bodies are not generated.",
       "trace specification + reference model over generated exception nests, under ASan", "DESIGN.md section 5 C10")
+check("C20", "exploration",
+      "4k/200k generated multi-line programs with layout noise (blank lines, three comment styles, spaces/tabs, LF/CRLF) whose functions form a "
+      "call chain of depth 1-6 spread over eval() chunks with distinct file names and use()d files, with one injected fault (unresolvable "
+      "identifier in 8 expression contexts, unknown function, no matching overload, wrong arity) at a position known from the generator's own "
+      "line/column bookkeeping: eval_error::call_stack[0] must start exactly there with that file name and the Fun_Call entries must be exactly "
+      "the enclosing call sites, innermost first, each with its own file/line/column.",
+      "Trusted: the generator's line/column bookkeeping (ground truth); call sites begin with an identifier.",
+      "ground-truth oracle from the generator's source map over generated programs, under ASan", "DESIGN.md section 5 C20")
 for _p in ["C%02d" % i for i in range(2, 21) if "C%02d" % i not in CHECKS]:
     NA[_p] = "check not implemented yet in this revision (work in progress, see DESIGN.md); nothing is claimed"
